@@ -14,6 +14,9 @@
 #ifdef VF_PW_ROUNDTRIP
 #define VF_MD5_UF
 #endif
+#ifdef VF_PW_CHAIN_PLAIN
+#define VF_MD5_GHOST_BODY
+#endif
 #include "stubs/radius_md5.h"
 #include "contracts/radius.h"
 #include "stubs/radius.h"
@@ -70,8 +73,44 @@ void harness(void) {
 	VF_ASSERT(dec_len <= password_len, "decode: reported length never exceeds the original");
 	/* wrong secret / modified ciphertext is a C15 claim about detection by the authenticators, not
 	 * about un-hiding: nothing to assert here */
+#elif defined(VF_PW_CHAIN_PLAIN)
+	/* RFC 2865 5.2 chain, bounded (password <= VF_PW bytes), plain mode, MD5 = ghost-stream bodies:
+	 *   input of MD5 computation i == secret || c_(i-1)   (c_0 = request authenticator; NOT secret || RA || c_(i-1))
+	 *   c_i == p_i xor digest_i, p zero-padded to 16; decode consumes the same inputs */
+	VF_NONDET_BYTES(pw, VF_PW);
+	VF_NONDET_BYTES(key, VF_KEY);
+	VF_NONDET_BYTES(auth, 16);
+	VF_NONDET(size_t, password_len);
+	VF_ASSUME(password_len <= VF_PW);
+	VF_NONDET(size_t, key_len);
+	VF_ASSUME(key_len <= VF_KEY);
+	VF_NONDET(size_t, g1); VF_NONDET(size_t, blk); VF_NONDET(size_t, m);
+	uint8_t enc[((VF_PW + 15) & ~15) + 16], dec[((VF_PW + 15) & ~15) + 16];
+	size_t enc_len = 0, dec_len = 0, aligned = (password_len == 0) ? 16 : ((password_len + 15) & ~(size_t)15), n;
+	int r;
+	vf_md5_k = g1; vf_md5_n = 0;
+	VF_ASSUME(blk < aligned / 16 && m < 16);
+
+	r = radius_pkt_attr_password_encode(auth.b, pw.b, password_len, key.b, key_len, enc, sizeof(enc), &enc_len);
+	VF_ASSERT(r == 0 && enc_len == aligned && vf_md5_n == aligned / 16, "encode: one MD5 computation per 16-byte block");
+	VF_ASSERT(vf_md5_len[blk] == key_len + 16, "encode: MD5 input length == |secret| + 16");
+	VF_ASSERT(vf_md5_k >= key_len || vf_md5_at[blk] == key.b[vf_md5_k], "encode: MD5 input starts with the secret");
+	VF_ASSERT(vf_md5_k < key_len || vf_md5_k - key_len >= 16 ||
+	    vf_md5_at[blk] == ((blk == 0) ? auth.b[vf_md5_k - key_len] : enc[16 * (blk - 1) + (vf_md5_k - key_len)]),
+	    "encode: ... followed by the request authenticator (block 1) / the previous ciphertext block");
+	VF_ASSERT(enc[16 * blk + m] == (uint8_t)(((16 * blk + m < password_len) ? pw.b[16 * blk + m] : 0) ^ vf_md5_dig[blk][m]),
+	    "encode: c_i == p_i xor MD5(...), p zero-padded");
+	n = vf_md5_n;
+	r = radius_pkt_attr_password_decode(auth.b, enc, enc_len, key.b, key_len, dec, sizeof(dec), &dec_len);
+	VF_ASSERT(r == 0 && vf_md5_n == 2 * n, "decode: one MD5 computation per block");
+	VF_ASSERT(vf_md5_len[n + blk] == key_len + 16, "decode: MD5 input length == |secret| + 16");
+	VF_ASSERT(vf_md5_k >= key_len || vf_md5_at[n + blk] == key.b[vf_md5_k], "decode: MD5 input starts with the secret");
+	VF_ASSERT(vf_md5_k < key_len || vf_md5_k - key_len >= 16 ||
+	    vf_md5_at[n + blk] == ((blk == 0) ? auth.b[vf_md5_k - key_len] : enc[16 * (blk - 1) + (vf_md5_k - key_len)]),
+	    "decode: ... followed by the request authenticator / the previous CIPHERTEXT block (same input as encode)");
+	VF_ASSERT(dec[16 * blk + m] == (uint8_t)(enc[16 * blk + m] ^ vf_md5_dig[n + blk][m]), "decode: p_i == c_i xor MD5(...)");
 #else
-#error "select VF_PW_CHAIN or VF_PW_ROUNDTRIP"
+#error "select VF_PW_CHAIN, VF_PW_CHAIN_PLAIN or VF_PW_ROUNDTRIP"
 #endif
 	VF_CANARY("radius password harness end");
 }
